@@ -60,7 +60,8 @@ class StochasticGame:
         """
         transitions = 0
         for state_transitions in self.transition_list:
-            transitions += len(state_transitions)
+            if isinstance(state_transitions, list):
+                transitions += len(state_transitions)
         return transitions
 
     def init_states(self):
